@@ -25,7 +25,11 @@ def is_unqualified_table_expression(expression: exp.Expression) -> tuple[bool, b
         exp.Expression: The transformed expression.
     """
 
-    if not (node := expression.find(exp.Table)):
+    # names introduced by WITH are not tables, so they don't need a database or schema
+    cte_names = {cte.alias for cte in expression.find_all(exp.CTE)}
+    node = next((t for t in expression.find_all(exp.Table) if t.db or t.name not in cte_names), None)
+
+    if not node:
         return False, False
 
     assert node.parent, f"No parent for table expression {node.sql()}"
